@@ -14,7 +14,11 @@ ALPHA = [",", "\t", '"', "\\", " ", "a", "b", "é", "漢", "'", ";", "|", "0", "
 _CLS = {}
 
 
-def classes():
+def classes(fresh=False):
+    """fresh=True: new classes (the Record helpers keep per-class state; every case starts from unused classes, so both orders
+    of first use — base class first, derived class first — occur)"""
+    if fresh:
+        _CLS.clear()
     if not _CLS:
         from windpyutils.files import CSVRecord, TSVRecord, JsonRecord
 
@@ -51,11 +55,29 @@ def classes():
             b: Any
             c: Any
 
-        _CLS.update(C2=C2, T3=T3, C1=C1, CT=CT, TT=TT, J=J)
+        # record classes derived from concrete record classes (extra fields need defaults)
+        @dataclass
+        class C3D(C2):
+            c: str = "dflt"
+
+        @dataclass
+        class T4D(T3):
+            d: str = ""
+
+        @dataclass
+        class CTD(CT):
+            t: str = "t"
+
+        @dataclass
+        class JD(J):
+            d: Any = None
+
+        _CLS.update(C2=C2, T3=T3, C1=C1, CT=CT, TT=TT, J=J, C3D=C3D, T4D=T4D, CTD=CTD, JD=JD)
     return _CLS
 
 
-STRCLS = {"C2": ("c", 2), "T3": ("t", 3), "C1": ("c", 1)}
+STRCLS = {"C2": ("c", 2), "T3": ("t", 3), "C1": ("c", 1), "C3D": ("c", 3), "T4D": ("t", 4)}
+BYARITY = {v: k for k, v in STRCLS.items()}
 
 
 def gen_str(rng, maxlen=6):
@@ -152,14 +174,14 @@ class Prop(SeqProp):
         return os.path.join(self.scratch, name)
 
     def run_impl(self, case):
-        cl = classes()
+        cl = classes(fresh=True)
         out = []
         for op in case.ops:
             w = op.split()
             try:
                 if w[0] in ("save", "write"):
                     fields = [dec_str(x) for x in w[2:]]
-                    name = {("c", 2): "C2", ("t", 3): "T3", ("c", 1): "C1"}.get((w[1], len(fields)))
+                    name = BYARITY.get((w[1], len(fields)))
                     if name is None:
                         out.append("bad-op"); continue
                     rec = cl[name](*fields)
@@ -176,7 +198,7 @@ class Prop(SeqProp):
                     import csv
                     row = next(iter(csv.reader([s], delimiter=d)))
                     # load goes through the same reader: check with a class of matching arity when there is one
-                    name = {("c", 2): "C2", ("t", 3): "T3", ("c", 1): "C1"}.get((w[1], len(row)))
+                    name = BYARITY.get((w[1], len(row)))
                     line = "list " + ",".join(enc_str(f) for f in row)
                     if name is not None:
                         rec = cl[name].load(s)
@@ -203,10 +225,12 @@ class Prop(SeqProp):
             i = rng.choice([0, -1, 7, 10 ** 30, -2 ** 63, rng.randint(-10 ** 9, 10 ** 9)])
             x = gen_float(rng)
             s = gen_str(rng)
-            for rec in (cl["CT"](i, x, s), cl["TT"](s, i, x)):
+            recs = [cl["CT"](i, x, s), cl["TT"](s, i, x), cl["CTD"](i, x, s, gen_str(rng))]
+            rng.shuffle(recs)
+            for rec in recs:
                 line = rec.save()
                 back = type(rec).load(line)
-                same = (back.i == rec.i and back.s == rec.s and
+                same = (back == rec and back.i == rec.i and back.s == rec.s and
                         (back.x == rec.x and math.copysign(1, back.x) == math.copysign(1, rec.x)))
                 if not same or type(back.i) is not int or type(back.x) is not float:
                     return f"fail typed {rec!r} -> {line!r} -> {back!r}"
@@ -217,30 +241,33 @@ class Prop(SeqProp):
     def json_rt(self, rng):
         cl = classes()
         for _ in range(5):
-            rec = cl["J"](gen_json(rng), gen_json(rng), gen_json(rng))
+            JC = cl[rng.choice(["J", "JD"])]
+            rec = JC(*[gen_json(rng) for _ in range(3 if JC is cl["J"] else 4)])
             line = rec.save()
             if "\n" in line or "\r" in line:
                 return f"fail json single-line {line!r}"
-            back = cl["J"].load(line)
+            back = JC.load(line)
             if back != rec:
                 return f"fail json {rec!r} -> {line!r} -> {back!r}"
             # extra keys in the line are filtered out
             import json
             d = json.loads(line); d["zzz"] = 1
-            if cl["J"].load(json.dumps(d)) != rec:
+            if JC.load(json.dumps(d)) != rec:
                 return "fail json extra key"
         return "ok"
 
     def recfile(self, rng):
         from windpyutils import files
         cl = classes()
-        name = rng.choice(["C2", "T3", "CT"])
+        name = rng.choice(["C2", "T3", "CT", "C3D", "CTD"])
         R = cl[name]
 
         def mkrec():
             if name == "CT":
                 return R(rng.randint(-99, 99), gen_float(rng), gen_str(rng))
-            return R(*[gen_str(rng) for _ in range(2 if name == "C2" else 3)])
+            if name == "CTD":
+                return R(rng.randint(-99, 99), gen_float(rng), gen_str(rng), gen_str(rng))
+            return R(*[gen_str(rng) for _ in range(STRCLS[name][1])])
 
         ref = [mkrec() for _ in range(rng.randint(0, 5))]
         src = self.path("rec_src.txt")
